@@ -77,6 +77,14 @@ Definition c01_pair_verdict (o o' : bytes) : option bytes :=
   else if negb (same_structure o o') then Some (B "structure_changed_by_data")
   else None.
 
+(* the author's own markup: the template text with every action replaced by the inert placeholder
+   (computed by the harness for templates without control structures).  The engine elides the
+   comments the author wrote, so they are dropped from the author's side *)
+Definition drop_comments (l : list stoken) : list stoken :=
+  filter (fun k => match k with KComment _ => false | _ => true end) l.
+Definition same_structure_as_author (author o : bytes) : bool :=
+  list_eqb stoken_eqb (drop_comments (fst (skel author))) (fst (skel o)) && hstate_eqb (snd (skel author)) (snd (skel o)).
+
 (* ------------------------------------------------------------------ untrusted values *)
 
 (* a value that does not carry a safehtml type (through any pointer depth) *)
